@@ -35,6 +35,8 @@ def run_case(case, rng):
     rep = rng.choice(Bd.REPRS)
     if fam not in ("stray", "ghostzero") and rng.random() < 0.1:
         rep = "annotated"       # equal-but-distinct state objects whose step note the reward function reads
+    if fam not in ("stray", "ghostzero") and rng.random() < 0.1:
+        rep = rng.choice(["dsp_override", "quick_override"])       # models written by subclassing a library class and overriding its public methods
     explicit = rep.endswith("explicit")
     ghost = None
     # dead-end state (no actions) occasionally, explicit lists only (an inferred closure would be fine
